@@ -249,7 +249,7 @@ def abstract_time(t, dts_by_code):
 class Script:
     """Environment choices of one TdglRun behaviour."""
 
-    def __init__(self, cfg, tdts, simdts, flog, probes=0, screening=False, progress=0, prior=None):
+    def __init__(self, cfg, tdts, simdts, flog, probes=0, screening=False, progress=0, prior=None, fault_shape=0):
         self.cfg = cfg
         self.tdts = list(tdts)
         self.simdts = list(simdts)
@@ -260,15 +260,16 @@ class Script:
         # history: an earlier run of the same process written to the SAME output path and removed with
         # os.remove before this run starts (dict(k, solveT, simdts)); state must not leak between runs
         self.prior = prior
+        self.fault_shape = fault_shape
 
     def key(self):
         return (tuple(sorted((k, str(v)) for k, v in self.cfg.items())), tuple(self.tdts), tuple(self.simdts),
                 tuple(tuple(sorted(f.items())) for f in self.flog), self.probes, self.screening, self.progress,
-                json.dumps(self.prior, sort_keys=True))
+                json.dumps(self.prior, sort_keys=True), self.fault_shape)
 
     def to_json(self):
         return {"cfg": self.cfg, "tdts": self.tdts, "simdts": self.simdts, "flog": self.flog,
-                "probes": self.probes, "screening": self.screening, "progress": self.progress, "prior": self.prior}
+                "probes": self.probes, "screening": self.screening, "progress": self.progress, "prior": self.prior, "fault_shape": self.fault_shape}
 
 
 class _FaultyDict(dict):
@@ -289,6 +290,13 @@ class _FaultyDict(dict):
 
 class Boom(RuntimeError):
     pass
+
+
+class _WeirdError(Exception):
+    """user-defined error without arguments whose str() is empty"""
+
+    def __str__(self):
+        return ""
 
 
 def replay(tdgl, script: Script, base_tmp: str | None = None):
@@ -343,7 +351,7 @@ def _replay(tdgl, script, base_tmp=None, sandbox=None, keep=False):
         output_file=("out.h5" if cfg["out"] == "path" else None), include_screening=script.screening,
         field_units="mT", current_units="uA",
     )
-    st = {"n": 0, "thermal_n": 0, "sim_n": 0, "applied": 0, "saves": 0, "in_sim": cfg["skipT"] == 0}
+    st = {"n": 0, "thermal_n": 0, "sim_n": 0, "applied": 0, "saves": 0, "in_sim": cfg["skipT"] == 0, "injected": []}
     dts_by_code = {}
     faults = script.flog
     used_fault = [False] * len(faults)
@@ -358,10 +366,20 @@ def _replay(tdgl, script, base_tmp=None, sandbox=None, keep=False):
                     return f
         return None
 
-    def raise_kind(kind):
+    def make_fault(kind):
+        """The exception object injected for a fault; errors come in several shapes (with and without
+        arguments, builtin and user-defined): a stopped run must be cleaned up whatever the error looks like."""
         if kind == "KI":
-            raise KeyboardInterrupt()
-        raise Boom("injected fault")
+            exc = KeyboardInterrupt()
+        else:
+            shapes = [lambda: Boom("injected fault"), lambda: Boom(), lambda: AssertionError(), lambda: MemoryError(),
+                      lambda: ValueError(), lambda: OSError(5, "injected I/O error"), lambda: _WeirdError()]
+            exc = shapes[script.fault_shape % len(shapes)]()
+        st["injected"].append(exc)
+        return exc
+
+    def raise_kind(kind):
+        raise make_fault(kind)
 
     def scripted_update(state, running_state, dt, *, psi, mu, supercurrent, normal_current,
                         induced_vector_potential, applied_vector_potential=None, epsilon=None):
@@ -434,12 +452,12 @@ def _replay(tdgl, script, base_tmp=None, sandbox=None, keep=False):
             raise_kind(f["kind"])
         try:
             if f is not None:
-                exc = KeyboardInterrupt() if f["kind"] == "KI" else Boom("injected fault in writer")
+                exc = make_fault(f["kind"])
                 orig_save(self, state, _FaultyDict(data, exc), running_state)
             else:
                 orig_save(self, state, data, running_state)
         except BaseException as e:
-            kind = "KI" if isinstance(e, KeyboardInterrupt) else ("Err" if isinstance(e, Boom) else "Exc:" + type(e).__name__)
+            kind = "KI" if isinstance(e, KeyboardInterrupt) else ("Err" if any(e is x for x in st["injected"]) else "Exc:" + type(e).__name__)
             ev.update(outcome=kind, at="mid")
             events.append(ev)
             raise
@@ -475,6 +493,10 @@ def _replay(tdgl, script, base_tmp=None, sandbox=None, keep=False):
             result, exc_name = "raised", "KeyboardInterrupt"
         except Exception as e:
             result, exc_name = "raised", type(e).__name__ + ": " + str(e)[:200]
+            if st["injected"] and not any(e is x for x in st["injected"]) and any(not isinstance(x, KeyboardInterrupt) for x in st["injected"]) \
+                    and not exc_name.startswith(("ValueError: need at least", "TypeError", "KeyError")):
+                # the error that reached the caller is not the one that stopped the run: "the error propagates"
+                result = "raised-other"
         finally:
             DH.__enter__, DH.__exit__, DH.save_time_step = orig_enter, orig_exit, orig_save
         if sol is not None:
